@@ -132,7 +132,190 @@ def run_nonce_distinct(env, sh):
     env.check(env.Not(P.xor(bn, P.i2b(a, 12)) == P.xor(bn, P.i2b(b, 12))), 'distinct seq => distinct nonce')
 
 
-HARNESSES = dict(unseal_step=Harness('unseal_step', run_unseal_step), seal_step=Harness('seal_step', run_seal_step),
+# ------------------------------------------------------------------ set-up: KEM + key schedule
+
+from vlib.models import hpke as R
+
+NB = {'NIST P-256': 32, 'NIST P-384': 48, 'NIST P-521': 66, 'Curve25519': 32, 'Curve448': 56}
+SEED = {'Curve25519': 32, 'Curve448': 56}
+
+
+def _sym_key(env, curve, name):
+    from Crypto.PublicKey import ECC
+    if curve in SEED:
+        try:
+            return ECC.construct(curve=curve, seed=env.bytes(name + '_seed', SEED[curve]))
+        except ValueError:
+            # abstract group: the uninterpreted public point may coincide with a listed low-order point;
+            # the real group excludes that for clamped scalars -- path outside the model
+            env.assume(False)
+    order = int(ECC._curves[curve].order)
+    d = env.int(name + '_d', sh_bits(order))
+    # scalars of full byte length (the library encodes scalars at minimal length, which would otherwise
+    # fork once per possible length at every multiplication); shorter scalars are outside this harness
+    env.assume(env.And(d >= (1 << (8 * ((order.bit_length() + 7) // 8 - 1))), d < order))
+    return ECC.construct(curve=curve, d=d)
+
+
+def sh_bits(order):
+    return order.bit_length()
+
+
+def _ser(env, curve, key):
+    """RFC 9180 s7.1.1 SerializePublicKey"""
+    P = env.P
+    q = key.pointQ
+    n = NB[curve]
+    if curve in SEED:
+        return P.i2b(_iv(q.x), n, 'little')
+    return P.concat(b"\x04", P.i2b(_iv(q.x), n), P.i2b(_iv(q.y), n))
+
+
+def _iv(x):
+    v = getattr(x, '_value', None)
+    return v if v is not None else int(x)
+
+
+def _dh(env, curve, priv, pub):
+    """RFC 9180 s7.1: DH(skX, pkY) = x-coordinate of skX * pkY (I2OSP for NIST, little-endian for X curves)"""
+    P = env.P
+    pt = pub.pointQ * priv.d
+    n = NB[curve]
+    if curve in SEED:
+        return P.i2b(_iv(pt.x), n, 'little')
+    return P.i2b(_iv(pt.x), n)
+
+
+def _mode(auth, psk):
+    return (2 if auth else 0) + (1 if psk else 0)
+
+
+def run_setup(env, sh):
+    """Encap/Decap + KeySchedule of sender and receiver == RFC 9180 for symbolic keys, info, psk, psk_id"""
+    from Crypto.Protocol import HPKE
+    from Crypto.PublicKey import ECC
+    P = env.P
+    curve, aead, auth, use_psk = sh['curve'], sh['aead'], sh['auth'], sh['psk']
+    env.concrete_rng(11)
+    skR = _sym_key(env, curve, 'skR')
+    skS = _sym_key(env, curve, 'skS') if auth else None
+    skE = _sym_key(env, curve, 'skE')
+    info = env.bytes('info', sh['info'])
+    psk = (env.bytes('psk_id', sh['pskid']), env.bytes('psk', sh['psklen'])) if use_psk else None
+    real_generate = ECC.generate
+    ECC.generate = lambda **kw: skE
+    try:
+        try:
+            tx = HPKE.new(receiver_key=skR.public_key(), aead_id=HPKE.AEAD(aead), sender_key=skS, psk=psk, info=info)
+        except ValueError as e:
+            if 'Invalid ECDH point' in str(e):
+                # abstract group: the uninterpreted product may be the neutral element, which the real
+                # prime-order group excludes for scalars in [1, order-1] -- path outside the model
+                env.assume(False)
+            env.check(False, 'a valid sender set-up is not refused (%s)' % (str(e)[:80],))
+            return
+    finally:
+        ECC.generate = real_generate
+        env.concrete_rng(None)
+    enc = _ser(env, curve, skE.public_key())
+    pkRm = _ser(env, curve, skR.public_key())
+    env.check(tx.enc == enc, 'enc == SerializePublicKey(pkE)')
+    kem_context = P.concat(enc, pkRm, _ser(env, curve, skS.public_key())) if auth else P.concat(enc, pkRm)
+    dh = _dh(env, curve, skE, skR.public_key())
+    if auth:
+        dh = P.concat(dh, _dh(env, curve, skS, skR.public_key()))
+    shared = R.extract_and_expand(P, curve, dh, kem_context)
+    pid, pv = psk if use_psk else (P.const(b""), P.const(b""))
+    key, nonce, exp = R.key_schedule(P, curve, aead, _mode(auth, use_psk), shared, info, pv, pid)
+    env.check(tx._key == key, 'sender key == RFC 9180 KeySchedule')
+    env.check(tx._base_nonce == nonce, 'sender base_nonce == RFC 9180 KeySchedule')
+    env.check(tx._sequence == 0, 'sequence number starts at 0')
+    # receiver
+    env.concrete_rng(12)
+    try:
+        try:
+            rx = HPKE.new(receiver_key=skR, aead_id=HPKE.AEAD(aead), enc=tx.enc, sender_key=skS.public_key() if auth else None,
+                          psk=psk, info=info)
+        except ValueError as e:
+            # abstract group: the uninterpreted pkE may coincide with a listed low-order point (X curves)
+            # or a product may be the neutral element -- excluded by the real group; outside the model
+            if curve in SEED or 'Invalid ECDH point' in str(e):
+                env.assume(False)
+            env.check(False, 'a genuine enc is accepted by the receiver (%s)' % (str(e)[:80],))
+            return
+    finally:
+        env.concrete_rng(None)
+    env.check(rx._key == key, 'receiver key == sender key == RFC 9180 (needs only DH commutation)')
+    env.check(rx._base_nonce == nonce, 'receiver base_nonce == sender base_nonce')
+    env.check(rx._sequence == 0, 'sequence number starts at 0')
+
+
+def run_decap_binding(env, sh):
+    """receiver offered an ARBITRARY enc: kem_context binds the enc bytes exactly as received"""
+    from Crypto.Protocol import HPKE
+    from Crypto.PublicKey import ECC
+    P = env.P
+    curve, aead = sh['curve'], sh['aead']
+    env.concrete_rng(13)
+    try:
+        skR = _sym_key(env, curve, 'skR')
+        n = NB[curve]
+        # NIST: uncompressed SEC1 form (RFC 9180 7.1.1); the leading octet is fixed so that the PEM/OpenSSH
+        # text sniffing of import_key (symbolic text) is not entered
+        enc = env.bytes('enc', n) if curve in SEED else P.concat(b"\x04", env.bytes('enc', 2 * n))
+        info = env.bytes('info', 3)
+        try:
+            rx = HPKE.new(receiver_key=skR, aead_id=HPKE.AEAD(aead), enc=enc, info=info)
+        except ValueError:
+            env.check(True, 'enc refused')
+            return
+        # deserialise as the library does, then RFC 9180 Decap with kem_context = enc || pkRm
+        if curve == 'Curve25519':
+            from Crypto.Protocol.DH import import_x25519_public_key as imp
+            pkE = imp(enc)
+        elif curve == 'Curve448':
+            from Crypto.Protocol.DH import import_x448_public_key as imp
+            pkE = imp(enc)
+        else:
+            pkE = ECC.import_key(enc, curve_name=curve)
+        dh = _dh(env, curve, skR, pkE)
+        shared = R.extract_and_expand(P, curve, dh, P.concat(enc, _ser(env, curve, skR.public_key())))
+        key, nonce, _ = R.key_schedule(P, curve, aead, 0, shared, info, P.const(b""), P.const(b""))
+        env.check(rx._key == key, 'key derives from kem_context = enc (as received) || pkRm')
+        env.check(rx._base_nonce == nonce, 'base_nonce derives from kem_context = enc (as received) || pkRm')
+    finally:
+        env.concrete_rng(None)
+
+
+def run_psk_matrix(env, sh):
+    """RFC 9180 s5.1 VerifyPSKInputs, on BOTH roles"""
+    from Crypto.Protocol import HPKE
+    from Crypto.PublicKey import ECC
+    curve = 'NIST P-256'
+    env.concrete_rng(14)
+    try:
+        skR = ECC.construct(curve=curve, d=sh.get('d', 7))
+        skE = ECC.construct(curve=curve, d=11)
+        pskid = env.bytes('psk_id', sh['pskid'])
+        pskv = env.bytes('psk', sh['psklen'])
+        psk = None if sh.get('none') else (pskid, pskv)
+        valid = sh.get('none') or (sh['pskid'] > 0 and sh['psklen'] >= 32)
+        try:
+            if sh['role'] == 'S':
+                HPKE.new(receiver_key=skR.public_key(), aead_id=HPKE.AEAD(1), psk=psk, info=b"i")
+            else:
+                HPKE.new(receiver_key=skR, aead_id=HPKE.AEAD(1), enc=skE.public_key().export_key(format='raw'), psk=psk, info=b"i")
+            ok = True
+        except ValueError:
+            ok = False
+        env.check(ok == bool(valid), 'set-up succeeds exactly for consistent PSK inputs (both empty / absent, or id non-empty and psk >= 32 bytes)')
+    finally:
+        env.concrete_rng(None)
+
+
+HARNESSES = dict(setup=Harness('setup', run_setup, max_paths=2000), decap_binding=Harness('decap_binding', run_decap_binding, max_paths=2000),
+                 psk_matrix=Harness('psk_matrix', run_psk_matrix),
+                 unseal_step=Harness('unseal_step', run_unseal_step), seal_step=Harness('seal_step', run_seal_step),
                  wrong_role=Harness('wrong_role', run_wrong_role), nonce_distinct=Harness('nonce_distinct', run_nonce_distinct))
 
 
@@ -153,6 +336,20 @@ def shapes(tier):
         for role in ('S', 'R'):
             jobs.append(('wrong_role', dict(aead=aead, role=role)))
     jobs.append(('nonce_distinct', dict()))
+    curves = ('NIST P-256', 'NIST P-384', 'NIST P-521', 'Curve25519', 'Curve448')
+    for ci, curve in enumerate(curves):
+        for aead in (1, 2, 3):
+            for auth in (False, True):
+                for psk in (False, True):
+                    if not th and not ((aead == 1 + ci % 3) or (curve == 'NIST P-256' and aead == 1)):
+                        continue
+                    jobs.append(('setup', dict(curve=curve, aead=aead, auth=auth, psk=psk, info=(5 if th else 3),
+                                               pskid=4, psklen=32 if not th else 40)))
+        jobs.append(('decap_binding', dict(curve=curve, aead=1)))
+    for role in ('S', 'R'):
+        for pskid, psklen in ((0, 0), (0, 32), (3, 0), (3, 31), (3, 32), (1, 33)):
+            jobs.append(('psk_matrix', dict(role=role, pskid=pskid, psklen=psklen)))
+        jobs.append(('psk_matrix', dict(role=role, pskid=0, psklen=0, none=True)))
     return jobs
 
 
